@@ -8,6 +8,7 @@
   heralds / mode count) does not, with a concrete witness.
 -/
 import LW.Model.Cache
+import LW.Proofs.C11
 
 namespace LW.C11
 
@@ -112,6 +113,216 @@ theorem F10_pinned_stale_read :
     let compute : SamplerCfg Nat → List (Nat × Nat) := fun c => c.inHer
     run snapPinned compute ({ cfg := c1 } : Cached (SamplerCfg Nat) _ _)
         [.read, .reconfig (fun _ => c2), .read] = [(c1, [(2, 0)]), (c2, [(2, 0)])] := by
+  decide
+
+/-! ## the QuickSampler (finding F30) -/
+
+/-- the repaired QuickSampler snapshot determines the configuration (object identity AND the
+rules the object holds now), so every computation factors through it -/
+theorem snapQuickFixed_factors {U : Type} {V : Type} (compute : QuickCfg U → V)
+    (c1 c2 : QuickCfg U) (h : snapQuickFixed c1 = snapQuickFixed c2) : compute c1 = compute c2 := by
+  have : c1 = c2 := by
+    cases c1; cases c2
+    simp only [snapQuickFixed, SnapQ.mk.injEq] at h
+    obtain ⟨h1, h2, h3, h4, h5, h6, h7, h8⟩ := h
+    subst h1 h2 h3 h4 h5 h6 h7 h8
+    rfl
+  rw [this]
+
+/-- hence a QuickSampler with the repaired snapshot is history independent for any `compute` -/
+theorem quick_history_independent {U V : Type} [DecidableEq U] (compute : QuickCfg U → V)
+    (ops : List (Op (QuickCfg U))) (c : QuickCfg U) :
+    ∀ cv ∈ run snapQuickFixed compute ({ cfg := c } : Cached (QuickCfg U) _ V) ops,
+      cv.2 = compute cv.1 :=
+  history_independent snapQuickFixed compute (snapQuickFixed_factors compute) ops _ (fresh_inv _ _ c)
+
+example : run snapQuickFixed (fun c : QuickCfg Nat => c.psRules)
+    ({ cfg := ⟨0, 3, [], [], [1, 1, 0], 7, [([0], [1])], true⟩ } : Cached (QuickCfg Nat) _ _)
+    [.read, .reconfig (fun c => { c with psRules := c.psRules ++ [([2], [0])] }), .read, .read] =
+    [(⟨0, 3, [], [], [1, 1, 0], 7, [([0], [1])], true⟩, [([0], [1])]),
+     (⟨0, 3, [], [], [1, 1, 0], 7, [([0], [1]), ([2], [0])], true⟩, [([0], [1]), ([2], [0])]),
+     (⟨0, 3, [], [], [1, 1, 0], 7, [([0], [1]), ([2], [0])], true⟩, [([0], [1]), ([2], [0])])] := by
+  decide
+
+/-- the snapshot before ab07a40 does not determine the distribution: the same PostSelection object
+with another rule added in place has the same pinned snapshot (finding F30) -/
+theorem F30_pinned_counterexample :
+    ∃ c1 c2 : QuickCfg Nat, snapQuickPinned c1 = snapQuickPinned c2 ∧ c1.psId = c2.psId ∧
+      c1.psRules ≠ c2.psRules :=
+  ⟨⟨0, 3, [], [], [1, 1, 0], 7, [([0], [1])], true⟩,
+   ⟨0, 3, [], [], [1, 1, 0], 7, [([0], [1]), ([2], [0])], true⟩, rfl, rfl, by decide⟩
+
+/-- … and with it a stale read really happens: read, add a rule in place to the held object, read
+again — the OLD value comes back although a fresh object computes a different one. -/
+theorem F30_pinned_stale_read :
+    let c1 : QuickCfg Nat := ⟨0, 3, [], [], [1, 1, 0], 7, [([0], [1])], true⟩
+    let c2 : QuickCfg Nat := ⟨0, 3, [], [], [1, 1, 0], 7, [([0], [1]), ([2], [0])], true⟩
+    let compute : QuickCfg Nat → List PSRule := fun c => c.psRules
+    run snapQuickPinned compute ({ cfg := c1 } : Cached (QuickCfg Nat) _ _)
+        [.read, .reconfig (fun c => { c with psRules := c.psRules ++ [([2], [0])] }), .read] =
+      [(c1, [([0], [1])]), (c2, [([0], [1])])] ∧ compute c2 ≠ [([0], [1])] := by
+  decide
+
+/-! ## the staleness test; computations that raise -/
+
+/-- a read recomputes exactly when `_check_parameter_updates` (`stale`) says so -/
+theorem read_recomputes_iff_stale (snap : Cfg → Snap) (compute : Cfg → Val)
+    (s : Cached Cfg Snap Val) :
+    s.read snap compute =
+      if s.stale snap then (compute s.cfg, { s with cache := some (snap s.cfg, compute s.cfg) })
+      else match s.cache with
+        | some (_, v) => (v, s)
+        | none => (compute s.cfg, s) :=
+  C11P.read_eq_of_stale snap compute s
+
+/-- `stale` is false exactly when a value for the current snapshot is stored -/
+theorem stale_eq_false_iff (snap : Cfg → Snap) (s : Cached Cfg Snap Val) :
+    s.stale snap = false ↔ ∃ v, s.cache = some (snap s.cfg, v) :=
+  C11P.stale_eq_false_iff snap s
+
+/-- for a computation that never raises the raising read is the plain read -/
+theorem readE_ok {E : Type} (snap : Cfg → Snap) (compute : Cfg → Val) (s : Cached Cfg Snap Val) :
+    s.readE snap (fun c => (Except.ok (compute c) : Except E Val)) =
+      (Except.ok (s.read snap compute).1, (s.read snap compute).2) :=
+  C11P.readE_ok snap compute s
+
+/-- the record of a read in `runE`: the configuration, the `stale` flag just before the read, the
+outcome of `readE` -/
+theorem runE_read {E : Type} (snap : Cfg → Snap) (compute : Cfg → Except E Val)
+    (s : Cached Cfg Snap Val) (ops : List (Op Cfg)) :
+    runE snap compute s (.read :: ops) =
+      (s.cfg, s.stale snap, (s.readE snap compute).1) ::
+        runE snap compute (s.readE snap compute).2 ops :=
+  C11P.runE_flag snap compute s ops
+
+/-- REFINEMENT with exceptions: a computation may raise (the exception leaves the stored pair
+untouched); for every history every read returns the value OR the exception that a freshly created
+object with the configuration current at that read produces. -/
+theorem history_independent_raising {E : Type} (snap : Cfg → Snap) (compute : Cfg → Except E Val)
+    (hf : ∀ c1 c2, snap c1 = snap c2 → compute c1 = compute c2)
+    (ops : List (Op Cfg)) (c : Cfg) :
+    ∀ r ∈ runE snap compute ({ cfg := c } : Cached Cfg Snap Val) ops, r.2.2 = compute r.1 :=
+  C11P.history_independentE snap compute hf ops _ (by intro k v h; simp at h)
+
+theorem sampler_history_independent_raising {U V E : Type} [DecidableEq U]
+    (compute : SamplerCfg U → Except E V) (ops : List (Op (SamplerCfg U))) (c : SamplerCfg U) :
+    ∀ r ∈ runE snapFixed compute ({ cfg := c } : Cached (SamplerCfg U) _ V) ops,
+      r.2.2 = compute r.1 :=
+  history_independent_raising snapFixed compute (snapFixed_factors compute) ops c
+
+theorem quick_history_independent_raising {U V E : Type} [DecidableEq U]
+    (compute : QuickCfg U → Except E V) (ops : List (Op (QuickCfg U))) (c : QuickCfg U) :
+    ∀ r ∈ runE snapQuickFixed compute ({ cfg := c } : Cached (QuickCfg U) _ V) ops,
+      r.2.2 = compute r.1 :=
+  history_independent_raising snapQuickFixed compute (snapQuickFixed_factors compute) ops c
+
+/-- a raising read in the middle: the configuration whose computation raises is read twice (both
+reads recompute and raise), then the first configuration again (still stored: no recomputation) -/
+example :
+    let c1 : QuickCfg Nat := ⟨0, 3, [], [], [1, 1, 0], 7, [([0], [1])], true⟩
+    let c2 : QuickCfg Nat := ⟨0, 3, [], [], [1, 1, 0], 7, [([0], [5])], true⟩
+    let compute : QuickCfg Nat → Except Unit Nat :=
+      fun c => if c.psRules = [([0], [5])] then .error () else .ok c.psRules.length
+    (runE snapQuickFixed compute ({ cfg := c1 } : Cached (QuickCfg Nat) _ _)
+        [.read, .reconfig (fun _ => c2), .read, .read, .reconfig (fun _ => c1), .read]).map
+        (fun r => (r.1, r.2.1, r.2.2.toOption)) =
+      [(c1, true, some 1), (c2, true, none), (c2, true, none), (c1, false, some 1)] := by
+  decide
+
+/-! ## components shared by several long-lived objects, changed in place -/
+
+/-- a fresh object's read computes (or raises what the computation raises) -/
+theorem fresh_readE {E : Type} (snap : Cfg → Snap) (compute : Cfg → Except E Val) (c : Cfg) :
+    (({ cfg := c } : Cached Cfg Snap Val).readE snap compute).1 = compute c := by
+  cases h : compute c <;> simp [Cached.readE, Cached.stale, h]
+
+/-- GENERIC: any number of holders (the initial ones and those created on the way), a heap of
+shared components that every holder sees, arbitrary interleavings of creation, reassignment,
+in-place change of the heap and reads; computations may raise.  If `compute` factors through the
+snapshot of the RESOLVED configuration, the cached world returns, read for read, exactly what the
+cache-free world returns, in which every read builds a fresh object from the holder's settings and
+the then-current heap. -/
+theorem shared_history_independent {H Own E : Type} (resolve : H → Own → Cfg) (snap : Cfg → Snap)
+    (compute : Cfg → Except E Val) (hf : ∀ c1 c2, snap c1 = snap c2 → compute c1 = compute c2)
+    (heap : H) (owns : List Own) (ops : List (WOp H Own)) :
+    CWorld.run resolve snap compute ⟨heap, owns.map (fun o => { cfg := o })⟩ ops =
+      CWorld.specRun resolve compute (heap, owns) ops := by
+  have h := C11P.shared_history_independent resolve snap compute hf ops
+    ⟨heap, owns.map (fun o => ({ cfg := o } : Cached Own Snap Val))⟩
+    (by
+      intro s hs
+      obtain ⟨o, _, rfl⟩ := List.mem_map.mp hs
+      intro k v hkv; simp at hkv)
+  simpa [C11P.forget, Function.comp_def] using h
+
+/-- every record of the cache-free world is the computation on the configuration of that moment -/
+theorem specRun_computes {H Own E : Type} (resolve : H → Own → Cfg) (compute : Cfg → Except E Val)
+    (ops : List (WOp H Own)) (w : H × List Own) :
+    ∀ r ∈ CWorld.specRun resolve compute w ops, r.2.2 = compute r.2.1 :=
+  C11P.specRun_computes resolve compute ops w
+
+/-- QuickSamplers sharing PostSelection objects (heap `psId ↦ rules`; `WOp.mutatePS psId newRules`
+changes the rules seen by every holder of that object, and is one of the `WOp.mutate` steps): with
+the repaired snapshot every holder's every read equals the fresh computation on the then-current
+heap, for every interleaving over any number of holders. -/
+theorem shared_component_history_independent {U V E : Type} [DecidableEq U]
+    (compute : QuickCfg U → Except E V) (heap : PSHeap) (owns : List (QuickOwn U))
+    (ops : List (WOp PSHeap (QuickOwn U))) :
+    CWorld.run QuickOwn.resolve snapQuickFixed compute ⟨heap, owns.map (fun o => { cfg := o })⟩ ops =
+      CWorld.specRun QuickOwn.resolve compute (heap, owns) ops :=
+  shared_history_independent QuickOwn.resolve snapQuickFixed compute
+    (snapQuickFixed_factors compute) heap owns ops
+
+/-- the same, read by read: the outcome is `compute` of the holder's configuration seen through
+the heap of that moment, which is also what a fresh object with that configuration returns -/
+theorem shared_component_reads_fresh {U V E : Type} [DecidableEq U]
+    (compute : QuickCfg U → Except E V) (heap : PSHeap) (owns : List (QuickOwn U))
+    (ops : List (WOp PSHeap (QuickOwn U))) :
+    ∀ r ∈ CWorld.run QuickOwn.resolve snapQuickFixed compute
+        ⟨heap, owns.map (fun o => { cfg := o })⟩ ops,
+      r.2.2 = compute r.2.1 ∧
+      r.2.2 = (({ cfg := r.2.1 } : Cached (QuickCfg U) (SnapQ U) V).readE snapQuickFixed compute).1 := by
+  intro r hr
+  rw [shared_component_history_independent] at hr
+  have := specRun_computes QuickOwn.resolve compute ops (heap, owns) r hr
+  exact ⟨this, this.trans (fresh_readE snapQuickFixed compute r.2.1).symm⟩
+
+/-- Samplers sharing Backend and Source objects that are changed in place -/
+theorem shared_sampler_history_independent {U V E : Type} [DecidableEq U]
+    (compute : SamplerCfg U → Except E V) (heap : SHeap) (owns : List (SamplerOwn U))
+    (ops : List (WOp SHeap (SamplerOwn U))) :
+    CWorld.run SamplerOwn.resolve snapFixed compute ⟨heap, owns.map (fun o => { cfg := o })⟩ ops =
+      CWorld.specRun SamplerOwn.resolve compute (heap, owns) ops :=
+  shared_history_independent SamplerOwn.resolve snapFixed compute
+    (snapFixed_factors compute) heap owns ops
+
+/-- two QuickSamplers hold the SAME PostSelection object 7; holder 0 is read, a rule is added in
+place, both are read, a third holder of the object is created and read (holder 5 does not exist) -/
+example :
+    let o : QuickOwn Nat := ⟨0, 3, [], [], [1, 1, 0], 7, true⟩
+    let heap : PSHeap := fun _ => [([0], [1])]
+    let heap' : PSHeap := PSHeap.mutate 7 [([0], [1]), ([2], [0])] heap
+    (CWorld.run QuickOwn.resolve snapQuickFixed
+        (fun c : QuickCfg Nat => (Except.ok c.psRules.length : Except Unit Nat))
+        ⟨heap, [{ cfg := o }, { cfg := o }]⟩
+        [.read 0, .mutatePS 7 [([0], [1]), ([2], [0])], .read 0, .read 1, .new o, .read 2, .read 5]).map
+        (fun r => (r.1, r.2.1, r.2.2.toOption)) =
+      [(0, o.resolve heap, some 1), (0, o.resolve heap', some 2), (1, o.resolve heap', some 2),
+       (2, o.resolve heap', some 2)] := by
+  decide
+
+/-- with the snapshot before ab07a40 the holder that was read before the in-place change returns
+the stale value, while a second holder of the same object (not read before) is right: the
+disagreement between two holders of one component is finding F30 in its shared form -/
+theorem F30_shared_pinned_stale_read :
+    let o : QuickOwn Nat := ⟨0, 3, [], [], [1, 1, 0], 7, true⟩
+    let heap : PSHeap := fun _ => [([0], [1])]
+    (CWorld.run QuickOwn.resolve snapQuickPinned
+        (fun c : QuickCfg Nat => (Except.ok c.psRules.length : Except Unit Nat))
+        ⟨heap, [{ cfg := o }, { cfg := o }]⟩
+        [.read 0, .mutatePS 7 [([0], [1]), ([2], [0])], .read 0, .read 1]).map
+        (fun r => (r.1, r.2.2.toOption)) =
+      [(0, some 1), (0, some 1), (1, some 2)] := by
   decide
 
 end LW.C11
